@@ -243,6 +243,61 @@ def r_annotation_cut(repo, rep, R='R20.3'):
     return n
 
 
+def r_dependency_pattern(repo, rep, R='R20.3'):
+    """the dependency variables `{I1}` the annotated bank writes after categories are removed wherever they stand: the
+    pattern that strips them is `{` + anything (shortest) + `}` with no condition on what comes before or after it (a
+    look-behind for `]` / `)` misses the feature-less atoms, *START*{I1})"""
+    import re as _re
+    mod = repo.module(JRD)
+    pats = []
+    for st in mod.tree.body:
+        if isinstance(st, ast.Assign) and isinstance(st.value, ast.Call) and src(st.value.func) in ('re.compile', 'compile') and st.value.args \
+                and isinstance(st.value.args[0], ast.Constant) and isinstance(st.value.args[0].value, str) and '{' in st.value.args[0].value:
+            pats.append((st, st.value.args[0].value))
+    if not pats:
+        return 0
+    try:
+        from re import _parser as sre
+    except ImportError:      # pragma: no cover
+        import sre_parse as sre
+    for st, text in pats:
+        w = '%s:%s %s' % (JRD, st.lineno, src(st.targets[0]))
+        try:
+            tree = sre.parse(text)
+        except Exception as e:
+            rep.check(False, R, w, 'ja-reader:dependency-pattern', '', 'the pattern %r does not compile: %s' % (text, e))
+            continue
+        ops = [str(op) for op, _ in tree]
+        asserts = [o for o in ops if 'ASSERT' in o or o == 'AT']
+        lits = [av for op, av in tree if str(op) == 'LITERAL']
+        shape = len(lits) >= 2 and lits[0] == ord('{') and lits[-1] == ord('}') and any('MIN_REPEAT' in o for o in ops)
+        rep.check(shape and not asserts, R, w, 'ja-reader:dependency-pattern',
+                  'dependency variables are stripped wherever they stand: %r' % text,
+                  'the pattern %r %s: a variable behind a feature-less category (`*START*{I1}`) stays on the category text'
+                  % (text, 'only matches in a given context (%s)' % asserts if asserts else 'is not `{` shortest-anything `}`'))
+    return len(pats)
+
+
+def r_token_keeps_fields(repo, rep, R='R20.1'):
+    """Token(**fields) stores every field it is given, whatever the value: the readers build their leaves with
+    Token(word=<text read>) -- a constructor that leaves some values out loses words such as `*`"""
+    tm = repo.module('depccg/types.py')
+    init = tm.get('Token.__init__', required=False)
+    if init is None:
+        return
+    kw = init.args.kwarg.arg if init.args.kwarg is not None else None
+    w = 'depccg/types.py:%s Token.__init__' % init.lineno
+    sup = [c for c in ast.walk(init) if isinstance(c, ast.Call) and isinstance(c.func, ast.Attribute) and c.func.attr in ('__init__', 'update')]
+    passes = [c for c in sup if not c.args and len(c.keywords) == 1 and c.keywords[0].arg is None and isinstance(c.keywords[0].value, ast.Name) and c.keywords[0].value.id == kw] + \
+        [c for c in sup if len(c.args) == 1 and not c.keywords and isinstance(c.args[0], ast.Name) and c.args[0].id == kw]
+    touched = [n for n in ast.walk(init) if (isinstance(n, ast.Call) and isinstance(n.func, ast.Attribute) and isinstance(n.func.value, ast.Name) and n.func.value.id == kw and n.func.attr in ('pop', 'clear', 'popitem'))
+               or (isinstance(n, ast.Delete) and any(isinstance(t, ast.Subscript) and isinstance(t.value, ast.Name) and t.value.id == kw for t in n.targets))
+               or (isinstance(n, ast.Assign) and any(isinstance(t, ast.Name) and t.id == kw for t in n.targets))]
+    rep.check(kw is not None and len(passes) >= 1 and not touched, R, w, 'Token:keeps-fields',
+              'the constructor hands all of **%s to the dictionary it is' % kw,
+              'Token.__init__ does not store every field it is given (%s): a leaf whose word has the left-out value has no word' % ([src(c)[:80] for c in sup][:2] or 'no plain hand-over'))
+
+
 def _r_find_guard_old(repo, rep, R='R20.3'):
     n = 0
     for rel in (RD, JRD):
@@ -462,6 +517,9 @@ def r_ja(repo, rep):
     # other word must pass through unchanged
     if ok:
         wt = parts[0][0]
+        plain = wt == A(N(p), 'word') or (wt[0] == 'call' and wt[1][0] == 'name' and wt[2] == (A(N(p), 'word'),))
+        rep.check(plain, 'R20.6', w, 'ja_of:word-form', 'the surface form written is node.word, at most through one function of utils (judged below)',
+                  'the word is written as %s: the reader takes the text literally, so whatever this rewrites does not read back' % show(wt)[:80])
         if wt[0] == 'call' and wt[1][0] == 'name' and wt[2] == (A(N(p), 'word'),):
             um = repo.module('depccg/utils.py')
             f_ = um.get(wt[1][1], required=False)
@@ -586,6 +644,8 @@ def check(repo, rep, tier):
     rep.floor('Japanese rule symbols required', n, 13)
     nf = r_find_guard(repo, rep)
     r_annotation_cut(repo, rep)
+    r_dependency_pattern(repo, rep)
+    r_token_keeps_fields(repo, rep)
     rep.floor('reader functions scanned for find()-derived slices', nf, 25)
     r_ptb(repo, rep)
     r_ptb_lines(repo, rep)
